@@ -5,8 +5,8 @@ SPEC = {
     "sub": "c17",
     "lean_modules": ["TrustVerif.Props.C17"],
     "tiers": {
-        "quick": {"cases": 1500, "extra": {"ops": 60, "rt": 40}},
-        "thorough": {"cases": 60000, "extra": {"ops": 80, "rt": 1000}},
+        "quick": {"cases": 1500, "extra": {"ops": 60, "rt": 40, "rt_runs": 3, "jobs": 4}},
+        "thorough": {"cases": 60000, "extra": {"ops": 80, "rt": 1200, "rt_runs": 4, "rt_all_threads": 1, "jobs": 6}},
     },
     "disagreement_is_violation": True,
     "rule": "TODO",
